@@ -18,8 +18,10 @@ Record sub_obs := {
 }.
 
 Inductive cbody :=
-| CSubmit (inp : input) (order : list nat) (obs : sub_obs)
-    (* order = the order in which the nodes' goroutines were seen to start (nodes never started last) *)
+| CSubmit (inp : input) (cl : option caller) (order : list nat) (obs : sub_obs)
+    (* cl = the deadline of the context the caller passed to Submit<Kind> (None: a context without
+       deadline) and whether the scripted nodes ignore the request context;
+       order = the order in which the nodes' goroutines were seen to start (nodes never started last) *)
 | CScatter (len conc gomax : Z) (calls : option (list (Z * Z))) (results : list (Z * Z))
     (* util.Scatter through its public API: the (offset, entries) of every work() call sorted by
        offset (None = Scatter returned an error) and the (Offset, Extent) pairs it returned, sorted *)
@@ -58,20 +60,41 @@ Definition view_agrees (v : node_view) (ocs : list (N * list N)) : bool :=
   | Some st => forall2b (call_agrees st) (v_calls v) ocs
   end.
 
-Definition agree_submit (inp : input) (order : list nat) (obs : sub_obs) : bool :=
-  let '(vs, outs) := run inp order in
+(* under a caller's deadline: what the model places before the deadline is seen as it says, what it
+   places after it is not seen, at the very instant of the deadline anything seen is seen then *)
+Definition at_deadline (cl : option caller) (t : N) : bool :=
+  match cl with Some k => t =? cl_deadline k | None => false end.
+
+Definition view_agrees_dl (cl : option caller) (v : node_view) (ocs : list (N * list N)) : bool :=
+  match handed_over cl v with
+  | TYes => view_agrees v ocs
+  | TMaybe => (* the token / the version answer came at the very instant of the deadline: a node that
+                 ignores the context is either never reached or served as modelled, one that honours it
+                 sees at that instant whatever part of the payload got through *)
+              if deaf cl then is_nil ocs || view_agrees v ocs
+              else forallb (fun oc => at_deadline cl (fst oc)) ocs
+  | TNo => is_nil ocs
+  end.
+
+(* the only requests that end by their context are those the caller's own deadline ends, at that
+   instant, at nodes that honour the context *)
+Definition cut_by_caller (cl : option caller) (c : N * bool) : bool :=
+  negb (deaf cl) && at_deadline cl (fst c).
+
+Definition agree_submit (inp : input) (cl : option caller) (order : list nat) (obs : sub_obs) : bool :=
+  let '(vs, outs) := run_dl cl inp order in
   negb (o_panic obs)
   && is_perm order (length (i_nodes inp))
   && memb (prod_eqb bool_eqb N.eqb) (o_success obs, o_ret obs) outs
-  && forall2b view_agrees vs (o_nodes obs)
+  && forall2b (view_agrees_dl cl) vs (o_nodes obs)
   (* the model's node goroutines use the caller's context as it is (submit*.go hands ctx to
      sem.Acquire, serviceInfo, Submit<Kind>, handle...Error unchanged): the submitter finishes no
      request of its own accord, neither at a rejection, nor at the first acceptance, nor at the timeout *)
-  && forallb is_nil (o_cut obs).
+  && forallb (forallb (cut_by_caller cl)) (o_cut obs).
 
 Definition agree (c : case) : bool :=
   match c_body c with
-  | CSubmit inp order obs => agree_submit inp order obs
+  | CSubmit inp cl order obs => agree_submit inp cl order obs
   | CScatter len conc gomax calls results =>
       option_eqb (list_eqb zpair_eqb) (scatter_extents len conc gomax) calls
       && list_eqb zpair_eqb results (match calls with Some l => l | None => [] end)
@@ -139,15 +162,25 @@ Definition has_hang (nd : node) : bool :=
 (* the node is handed the payload as soon as its own version endpoint has answered (the scripted
    latency n_ver1; at once when that is 0), whatever the other nodes do; nothing is demanded here for
    a node whose version endpoint never answers *)
-Definition contacted_on_its_own (nd : node) (ocs : list (N * list N)) : bool :=
+(* The caller's deadline (the case's input).  An answer a node gives at instant t reaches vouch when
+   the node ignores the request context or t is strictly before the deadline; at the deadline itself
+   it may or may not; a request a context-honouring node would answer later is ended by the CALLER. *)
+Definition dl_before (cl : option caller) (t : N) : bool :=
+  match cl with None => true | Some k => cl_deaf k || (t <? cl_deadline k) end.
+Definition dl_at (cl : option caller) (t : N) : bool :=
+  match cl with None => false | Some k => negb (cl_deaf k) && (t =? cl_deadline k) end.
+Definition dl_passed (cl : option caller) (t : N) : bool :=
+  match cl with None => false | Some k => negb (cl_deaf k) && (cl_deadline k <=? t) end.
+
+Definition contacted_on_its_own (cl : option caller) (nd : node) (ocs : list (N * list N)) : bool :=
   match n_ver1 nd with
-  | Some v => negb (is_nil ocs) && forallb (fun oc => fst oc =? v) ocs
+  | Some v => negb (dl_before cl v) || (negb (is_nil ocs) && forallb (fun oc => fst oc =? v) ocs)
   | None => true
   end.
 
 Definition min_of (l : list N) (d : N) : N := fold_right N.min d l.
 
-Definition P_submit (inp : input) (obs : sub_obs) : bool :=
+Definition P_submit (inp : input) (cl : option caller) (obs : sub_obs) : bool :=
   let k := i_kind inp in
   let len := i_len inp in
   let T := i_timeout inp in
@@ -155,35 +188,52 @@ Definition P_submit (inp : input) (obs : sub_obs) : bool :=
   let n := Z.of_nat (length nodes) in
   negb (o_panic obs)
   && Nat.eqb (length (o_nodes obs)) (length nodes)
-  && (o_ret obs <=? T)                                            (* returns no later than the timeout *)
+  && (o_ret obs <=? T)                       (* returns no later than the CONFIGURED timeout, whatever
+                                                deadline the caller's context carries *)
   && if negb (guard_ok k len)
      then (* an empty submission: nothing to offer, reported as an error at once *)
        negb (o_success obs) && forallb is_nil (o_nodes obs)
      else
-       (* every node that was contacted got the whole payload exactly once *)
-       forallb (fun ocs => is_nil ocs || whole_payload k len ocs) (o_nodes obs)
+       (* every node that was contacted got the whole payload exactly once
+       (a node reached at the very instant of the caller's deadline may see any part of it) *)
+       forallb (fun ocs => is_nil ocs || whole_payload k len ocs
+                           || match ocs with oc :: _ => dl_at cl (fst oc) | [] => false end) (o_nodes obs)
        (* ... and none of its requests that would have been answered was abandoned by the submitter
           before the timeout (whatever that node's other requests or the other nodes answered): offered
           means left to be answered.  (Giving up a request that is never answered, or any request once
-          the timeout has passed, delivers no less: that is left to `agree`.) *)
-       && forallb (forallb (fun c => snd c || (T <=? fst c))) (o_cut obs)
+          the timeout has passed, delivers no less: that is left to `agree`.  A request that ends when
+          the caller's own deadline has passed was ended by the caller.) *)
+       && forallb (forallb (fun c => snd c || (T <=? fst c) || dl_passed cl (fst c))) (o_cut obs)
        (* concurrency >= number of nodes: every node is contacted at once (as soon as it has answered
           the version request, which is made at once), whatever the others do *)
        && ((i_conc inp <? n)%Z
-           || forall2b contacted_on_its_own nodes (o_nodes obs))
+           || forall2b (contacted_on_its_own cl) nodes (o_nodes obs))
        (* no node hangs: every node is contacted eventually, whatever the concurrency (>= 1) *)
-       && (existsb has_hang nodes || (i_conc inp <? 1)%Z
+       && (existsb has_hang nodes || (i_conc inp <? 1)%Z || negb (is_none cl)
            || forallb (fun ocs => negb (is_nil ocs)) (o_nodes obs))
        && (* success iff some node accepted (or rejected for tolerated reasons only) within the timeout *)
-       let fins := somes (map (fun p => node_finish k (fst p) (snd p)) (combine nodes (o_nodes obs))) in
+       (* an acceptance reaches vouch when the node gives it strictly before the caller's deadline or
+          ignores the context; a request that a context-honouring node would answer at or after the
+          caller's deadline is either ended then (by the caller: recorded in o_cut, the node has not
+          accepted) or was left to be answered (the node has accepted) *)
+       let fins := somes (map (fun p => match node_finish k (fst (fst p)) (snd (fst p)) with
+                                        | Some (t, ok) => Some (t, ok && (dl_before cl t || is_nil (snd p)))
+                                        | None => None
+                                        end)
+                              (combine (combine nodes (o_nodes obs)) (o_cut obs))) in
        let oks := map fst (filter snd fins) in
-       if o_success obs
+       Nat.eqb (length (o_cut obs)) (length nodes)
+       && if o_success obs
        then existsb (fun t => t <=? T) oks
             && (let m := min_of oks T in
                 if m =? 0
                 then (o_ret obs =? 0) || (o_ret obs =? min_of (filter (fun t => 0 <? t) oks) T)
                 else o_ret obs =? m)                              (* as soon as the first one accepts *)
-       else forallb (fun t => T <=? t) oks && (o_ret obs =? T).
+       else forallb (fun t => T <=? t) oks
+            (* failure is reported at the timeout, not before: until then a node may still accept --
+               unless the caller's deadline has passed and every node honours it (the nodes whose
+               requests were nevertheless left to be answered are in oks) *)
+            && ((o_ret obs =? T) || dl_passed cl (o_ret obs)).
 
 (* extents are non-empty, contiguous from a and end at b *)
 Fixpoint chainb (a b : Z) (l : list (Z * Z)) : bool :=
@@ -194,7 +244,7 @@ Fixpoint chainb (a b : Z) (l : list (Z * Z)) : bool :=
 
 Definition P_b (c : case) : bool :=
   match c_body c with
-  | CSubmit inp _ obs => P_submit inp obs
+  | CSubmit inp cl _ obs => P_submit inp cl obs
   | CScatter len conc gomax calls results =>
       match calls with
       | None => (len <=? 0)%Z && is_nil results
